@@ -25,6 +25,9 @@ EXEC_IDS = ("Stage::execute", "Stage::execute_seq", "SendDispatcher::dispatch", 
 
 
 def rules(ctx, report, facts, config, pfx="C01"):
+    # the plan separates what systems *declare*: for the data types the library provides, declared = borrowed is C06's, imported
+    from .. import datarules as _D
+    report.guard(pfx + ".DECL", _D.all_impls, ctx, report, facts, config, pfx + ".DECL", only_kinds=("leaf", "tuple"))
     report.guard(pfx + ".MATRIX", P.matrix, ctx, report, pfx + ".MATRIX", facts, config, ("matrix", "index"))
     report.guard(pfx + ".ALLGROUPS", P.allgroups, ctx, report, pfx + ".ALLGROUPS", facts, config)
     report.guard(pfx + ".INTERSECT", P.intersect_body, ctx, report, pfx + ".INTERSECT", facts, config)
